@@ -52,6 +52,15 @@ Theorem C09_puts_never_block : forall g sched,
 Proof. exact puts_never_block. Qed.
 Print Assumptions C09_puts_never_block.
 
+(* The end marker is the last thing a batching worker puts into its output queue, and it puts it once: whatever is in
+   the queue after any schedule, nothing follows an end marker and nothing before it is one. (Before repair N1 the
+   collector thread forwarded the marker as soon as it saw it, ahead of the results of the items still buffered: the next
+   stage then stopped reading while this one was still writing.) *)
+Theorem C09_end_marker_is_last : forall g sched a b,
+  locked_check g = true -> qout (run step g (init g) sched) = a ++ OStop :: b -> b = [] /\ no_ostop a = true.
+Proof. exact marker_is_last. Qed.
+Print Assumptions C09_end_marker_is_last.
+
 (* The code before the repair (buffer.full() tested outside the mutex, single wait): a schedule after which
    collector and consumer wait for each other for ever while requests are still in the input queue. *)
 Definition old_cfg := {| bsize := 2; reqs := repeat KGood 14; poison := []; locked_check := false |}.
@@ -75,7 +84,7 @@ Example C09_example_mixed :
   let g := {| bsize := 3; reqs := [KGood; KExc; KGood; KPre; KGood; KGood]; poison := [5%nat]; locked_check := true |} in
   let s := run step g (init g) (repeat Env 7 ++ repeat C 100 ++ flat_map (fun _ => [B false; B false; B false; B true]) (seq 0 30) ++ repeat C 10) in
   all_done g s = true /\ calls s = [[1; 3; 5]; [6]]%nat
-  /\ qout s = [OErr 2; OErr 4; OStop; OErr 1; OErr 3; OErr 5; ORes 6; OStop]%nat.
+  /\ qout s = [OErr 2; OErr 4; OErr 1; OErr 3; OErr 5; ORes 6; OStop]%nat.
 Proof. vm_compute. repeat split; reflexivity. Qed.
 
 (* -- the timed policy of the consumer (Model/EagerBatcher.v) ------------------------------------ *)
